@@ -13,6 +13,7 @@ pub mod c15;
 pub mod c17;
 pub mod c18;
 pub mod c19;
+pub mod c20;
 
 use crate::engine::Prop;
 
@@ -33,6 +34,7 @@ pub fn get(id: &str) -> Option<Box<dyn Prop>> {
     "C17" => Some(Box::new(c17::C17)),
     "C18" => Some(Box::new(c18::C18)),
     "C19" => Some(Box::new(c19::C19)),
+    "C20" => Some(Box::new(c20::C20)),
     _ => None,
   }
 }
